@@ -27,7 +27,9 @@ RULE = ("formulas with 0..9 (thorough: ..14) variables and 0..12 (thorough: ..40
         "signed permutations, identity, reversal) and invalid (wrong length, 0, +-2, N+1, repeated index, "
         "off-by-one ranges, empty) as list / tuple / range; all eight 'fixed'/'shuffle' combinations and mixes with "
         "explicit arguments under harness-chosen seeds; cnfshuffle and `cnfgen … -T shuffle` in-process with every "
-        "switch combination; distinct = distinct request line (formula + arguments + recorded draws); "
+        "switch combination; reuse: the SAME argument objects (list / array, one object in two roles) handed to 2..5 calls and "
+        "edited in place in between (valid->valid, valid->invalid, invalid->valid), each call judged on the current content; "
+        "distinct = distinct request line (formula + arguments + recorded draws); "
         "non-trivial = at least one variable and one clause")
 ASSUMPTIONS = [
     "input formula is well formed (non-zero literals within 1..N): what add_clause(check=True) and the DIMACS reader guarantee; "
